@@ -211,3 +211,231 @@ func asmLines(text string) []string {
 	}
 	return r
 }
+
+// ---------------------------------------------------------------------------
+// machines with channels
+
+// Neither back-end of /repo executes the channel opcodes: in the Go simulator wwr/wrd/chw are TODO bodies
+// (they write an output or only advance the pc), and the Verilog generated for a processor that sends but
+// never receives does not elaborate (chw assigns the register wrd_ch, which only wrd declares). What the
+// three opcodes are is stated by their descriptions — "Want write to a channel", "Want read from a channel",
+// "Channel operation wait" — and by the bondmachine's wiring (Shared_links[p][j] is the shared object behind
+// the local name chj of processor p). SimulateBM runs the processors of a bondmachine together with exactly
+// that meaning: wwr/wrd file the processor's wish on the channel object, chw holds the processor until the
+// wish has met its counterpart (an unbuffered rendezvous: the value goes from the writer's register to the
+// reader's). Everything else is executed by the real simulator, one instruction per processor per round;
+// the RAM moves r2m/m2r ("Copy a register value to the ram", "Memory to register copy"), which the simulator
+// does not implement either, are a per-processor array.
+var chanOps = map[string]bool{"wwr": true, "wrd": true, "chw": true}
+var chanSimOwn = map[string]bool{"wwr": true, "wrd": true, "chw": true, "r2m": true, "m2r": true}
+
+func usesChannels(ops []string) bool {
+	for _, o := range ops {
+		if chanOps[o] {
+			return true
+		}
+	}
+	return false
+}
+
+// chanSimEligible: every opcode is either simulator-faithful or one SimulateBM executes itself.
+func chanSimEligible(ops []string, rsize int) bool {
+	for _, o := range unfaithfulOps(ops, rsize) {
+		if !chanSimOwn[o] {
+			return false
+		}
+	}
+	return true
+}
+
+type chanWish struct {
+	write bool
+	so    int // shared object (global channel)
+	reg   int
+	val   uint64
+	met   bool
+}
+
+// SimulateBM returns per processor the r2o streams, the instructions executed, and how the run ended:
+// "satisfied" (every processor has written want[p][idx] values), "quiescent" (every processor is halted or
+// waits on a channel: nothing can happen any more) or "ticks".
+func SimulateBM(ld *Loaded, inputs [][]uint64, rounds int, want []map[int]int) (streams []map[int][]uint64, executed []int, ended string, err error) {
+	defer func() {
+		if r := recover(); r != nil {
+			err = fmt.Errorf("simulator panic: %v", r)
+		}
+	}()
+	np := len(ld.Procs)
+	vms := make([]*procbuilder.VM, np)
+	rams := make([]map[int]uint64, np)
+	wish := make([]*chanWish, np)
+	halted := make([]bool, np)
+	streams = make([]map[int][]uint64, np)
+	executed = make([]int, np)
+	for p, lp := range ld.Procs {
+		vm := new(procbuilder.VM)
+		vm.Mach = lp.Mach
+		if err := vm.Init(); err != nil {
+			return nil, nil, "", err
+		}
+		for i := range vm.Inputs {
+			v := uint64(0)
+			if p < len(inputs) && i < len(inputs[p]) {
+				v = inputs[p][i]
+			}
+			vm.Inputs[i] = gen.Val(int(lp.Mach.Rsize), v)
+		}
+		vms[p], rams[p], streams[p] = vm, map[int]uint64{}, map[int][]uint64{}
+	}
+	soOf := func(p, local int) (int, error) {
+		if ld.BM == nil || p >= len(ld.BM.Shared_links) || local >= len(ld.BM.Shared_links[p]) {
+			return 0, fmt.Errorf("processor %d uses ch%d but is linked to %d shared objects", p, local, len(ld.BM.Shared_links[p]))
+		}
+		return ld.BM.Shared_links[p][local], nil
+	}
+	satisfied := func() bool {
+		if want == nil {
+			return false
+		}
+		for p := range want {
+			for idx, n := range want[p] {
+				if len(streams[p][idx]) < n {
+					return false
+				}
+			}
+		}
+		return true
+	}
+	for round := 0; round < rounds; round++ {
+		moved := false
+		for p, vm := range vms {
+			if halted[p] {
+				continue
+			}
+			m := vm.Mach
+			n := len(m.Program.Slocs)
+			if int(vm.Pc) >= n {
+				halted[p] = true
+				continue
+			}
+			instr := m.Program.Slocs[vm.Pc]
+			oid, derr := m.Conproc.Decode_opcode(instr)
+			if derr != nil {
+				return streams, executed, "", fmt.Errorf("processor %d: undecodable instruction at %d", p, vm.Pc)
+			}
+			op := m.Arch.Conproc.Op[oid]
+			name := op.Op_get_name()
+			opBits := m.Opcodes_bits()
+			rs := int(m.Rsize)
+			var f []string
+			if chanSimOwn[name] || name == "j" || name == "r2o" {
+				dis, derr := op.Disassembler(&m.Arch, instr[opBits:])
+				if derr != nil {
+					return streams, executed, "", derr
+				}
+				f = strings.Fields(dis)
+			}
+			regOf := func(s string) (int, error) {
+				var r int
+				if _, e := fmt.Sscanf(s, "r%d", &r); e != nil || r >= len(vm.Registers) {
+					return 0, fmt.Errorf("processor %d: register %q in %s at %d", p, s, name, vm.Pc)
+				}
+				return r, nil
+			}
+			switch name {
+			case "wwr", "wrd":
+				var local int
+				if len(f) != 2 {
+					return streams, executed, "", fmt.Errorf("unexpected %s disassembly %q", name, f)
+				}
+				r, e := regOf(f[0])
+				if e != nil {
+					return streams, executed, "", e
+				}
+				if _, e := fmt.Sscanf(f[1], "ch%d", &local); e != nil {
+					return streams, executed, "", fmt.Errorf("unexpected %s operand %q", name, f[1])
+				}
+				so, e := soOf(p, local)
+				if e != nil {
+					return streams, executed, "", e
+				}
+				wish[p] = &chanWish{write: name == "wwr", so: so, reg: r, val: gen.U64(vm.Registers[r])}
+				vm.Pc++
+			case "chw":
+				w := wish[p]
+				if w != nil && !w.met {
+					for q := range vms {
+						if o := wish[q]; q != p && o != nil && !o.met && o.so == w.so && o.write != w.write {
+							wr, rd, rp := w, o, q
+							if !w.write {
+								wr, rd, rp = o, w, p
+							}
+							vms[rp].Registers[rd.reg] = gen.Val(int(vms[rp].Mach.Rsize), wr.val)
+							w.met, o.met = true, true
+							break
+						}
+					}
+				}
+				if w != nil && !w.met {
+					continue // still waiting: the instruction is not over
+				}
+				wish[p] = nil
+				vm.Pc++
+			case "r2m", "m2r":
+				var addr int
+				if len(f) != 2 {
+					return streams, executed, "", fmt.Errorf("unexpected %s disassembly %q", name, f)
+				}
+				r, e := regOf(f[0])
+				if e != nil {
+					return streams, executed, "", e
+				}
+				if _, e := fmt.Sscanf(f[1], "%d", &addr); e != nil {
+					return streams, executed, "", fmt.Errorf("unexpected %s operand %q", name, f[1])
+				}
+				if name == "r2m" {
+					rams[p][addr] = gen.U64(vm.Registers[r])
+				} else {
+					vm.Registers[r] = gen.Val(rs, rams[p][addr])
+				}
+				vm.Pc++
+			default:
+				if name == "j" && len(f) == 1 {
+					if tgt, e := strconv.Atoi(f[0]); e == nil && tgt >= n {
+						halted[p] = true // a jump out of the program (see Simulate)
+						executed[p]++
+						moved = true
+						continue
+					}
+				}
+				watch := -1
+				if name == "r2o" {
+					if len(f) != 2 {
+						return streams, executed, "", fmt.Errorf("unexpected r2o disassembly %q", f)
+					}
+					if _, e := fmt.Sscanf(f[1], "o%d", &watch); e != nil {
+						return streams, executed, "", e
+					}
+				}
+				if _, serr := vm.Step(nil); serr != nil {
+					return streams, executed, "", serr
+				}
+				if watch >= 0 {
+					if watch >= len(vm.Outputs) {
+						return streams, executed, "", fmt.Errorf("processor %d: r2o to output %d of a machine with %d outputs", p, watch, len(vm.Outputs))
+					}
+					streams[p][watch] = append(streams[p][watch], gen.U64(vm.Outputs[watch]))
+				}
+			}
+			executed[p]++
+			moved = true
+		}
+		if satisfied() {
+			return streams, executed, "satisfied", nil
+		}
+		if !moved {
+			return streams, executed, "quiescent", nil
+		}
+	}
+	return streams, executed, "ticks", nil
+}
